@@ -321,3 +321,24 @@ static void bad_drbg_carry__ripple(uint8_t *out, size_t out_len) {
 		}
 	}
 }
+
+/* the limit held in a local */
+void ok_e__rand_bytes(uint8_t *buf, size_t size) {
+	uint8_t hash[RLC_MD_LEN];
+	int carry, len = ST_LEN;
+	ctx_t *ctx = core_get();
+	size_t limit = (size_t)1 << 16;
+
+	if (size > limit) {
+		RLC_THROW(ERR_NO_VALID);
+		return;
+	}
+	st_gen(buf, size);
+	ctx->rand[0] = 0x3;
+	md_map(hash, ctx->rand, 1 + len);
+	rand_add(ctx->rand + 1, ctx->rand + 1 + len, len);
+	carry = rand_add(ctx->rand + 1 + (len - RLC_MD_LEN), hash, RLC_MD_LEN);
+	rand_inc(ctx->rand, len - RLC_MD_LEN + 1, carry);
+	rand_inc(ctx->rand, len + 1, ctx->counter);
+	ctx->counter = ctx->counter + 1;
+}
